@@ -222,6 +222,9 @@ def _engine_tie(prop: str, st: LeanStatus) -> None:
 
 def leanchecker(mods: list[str]) -> tuple[bool, str]:
     r = subprocess.run(["lake", "env", "leanchecker", *mods], capture_output=True, text=True, cwd=LEAN)
+    if r.returncode == 0 and any(m.rsplit(".", 1)[-1] in ENGINE_TIE_PROPS for m in mods) \
+            and (LEAN / "PytaskProofs" / "Properties" / "EngineTie.lean").exists():   # EngineTie (M6), in a call of its own
+        r = subprocess.run(["lake", "env", "leanchecker", "PytaskProofs.Properties.EngineTie"], capture_output=True, text=True, cwd=LEAN)
     return r.returncode == 0, (r.stdout + r.stderr)[-2000:]
 
 
